@@ -159,6 +159,7 @@ type Result struct {
 	Globals  map[string]tengo.Object
 	Compiled *tengo.Compiled
 	Elapsed  time.Duration
+	Retried  bool // the first attempt missed the default timeout; this is the second attempt's result
 }
 
 // Config for Run.
@@ -170,8 +171,29 @@ type Config struct {
 	UseRun    bool // use Compiled.Run instead of RunContext
 }
 
-// Run compiles and runs src (with source modules) through the Script API.
+// SlowRetry is the time a run that missed the default 5 s gets on its second
+// attempt before it is called a hang.
+const SlowRetry = 180 * time.Second
+
+// Run compiles and runs src (with source modules) through the Script API. A
+// run that does not finish within the default 5 s is not judged by the clock:
+// it is repeated from scratch with SlowRetry, and only a run that misses that
+// as well has status "timeout" (a program the reference executes in a few
+// thousand steps can still copy or freeze values of tens of thousands of
+// nodes in a loop, which takes seconds on a loaded machine).
 func Run(src string, modules map[string]string, inputs map[string]*lang.Val, cfg Config) (res *Result) {
+	res = runOnce(src, modules, inputs, cfg)
+	if res.Status == "timeout" && cfg.Timeout == 0 {
+		cfg.Timeout = SlowRetry
+		first := res.Elapsed
+		res = runOnce(src, modules, inputs, cfg)
+		res.Elapsed += first
+		res.Retried = true
+	}
+	return res
+}
+
+func runOnce(src string, modules map[string]string, inputs map[string]*lang.Val, cfg Config) (res *Result) {
 	res = &Result{Globals: map[string]tengo.Object{}}
 	start := time.Now()
 	defer func() {
